@@ -141,6 +141,8 @@ class Ctx(object):
             def body(case):
                 if ctx.over_budget():
                     return
+                if last.get("repeats", 0) >= 8 and "t_fail" not in last:
+                    return
                 if "t_fail" in last and time.time() - last["t_fail"] > shrink_budget_s:
                     last["cut"] = True      # shrinking has had its time: let hypothesis wind down, the smallest failing
                     return                  # case seen so far is kept in `last`
@@ -150,6 +152,10 @@ class Ctx(object):
                     if v.signature in ctx.open_known:
                         ctx.known_seen.setdefault(v.signature, case)
                 new = [v for v in ctx.split(viols) if v.signature not in found]
+                if not new and any(v.signature in found for v in viols):
+                    # the same root cause keeps failing; when each failing case is expensive (hang ceilings) there is no
+                    # point in paying for it hundreds of times: a handful of repeats ends this round
+                    last["repeats"] = last.get("repeats", 0) + 1
                 if new:
                     last["case"] = case
                     last["viol"] = new[0]
